@@ -29,7 +29,7 @@ def run(ctx):
         fam = 'replay.Domain.scale%g' % s
         # every edge once with the full transform battery on the reached domain
         w = Walker(ctx, g, dc.DomainAdapter(info, s, ctx.seed, heavy=True), fam)
-        ne = w.cover_edges()
+        ne = w.cover_edges(stutter=True)
         heavy_batteries = w.a.batteries
         # all paths / random walks with the attribute checks only
         w2 = Walker(ctx, g, dc.DomainAdapter(info, s, ctx.seed, heavy=False), fam)
@@ -42,7 +42,7 @@ def run(ctx):
     for (n, dr, rank) in ([(64, 0.1, 2), (100, 0.05, 3)] if not thorough else
                           [(64, 0.1, 1), (64, 0.1, 2), (100, 0.05, 3), (37, 0.2, 4), (1024, 0.025, 2)]):
         w = Walker(ctx, g2, dc.TransformAdapter(info2, n, dr, rank, ctx.seed), 'replay.transforms.n%d.rank%d' % (n, rank))
-        ne = w.cover_edges()
+        ne = w.cover_edges(stutter=True)
         npaths, _ = w.all_paths(4)
         ctx.stage('replay.transforms', n=n, rank=rank, edges_replayed=ne, paths=npaths)
     ctx.sample({'edge': res2.records['EDGE'][0]})
